@@ -1,4 +1,7 @@
-(* Proofs_C45.v — lemmas and proofs for C45. *)
+(* Proofs_C45.v — lemmas and proofs for C45 (security advisories flag exactly the vulnerable installed
+   versions).  Sections: the operator table · evaluation of boolean nodes, the four shapes of a range ·
+   one range (range_ok) · one entry (affected_is_spec_partial) · pinned tree vs repaired · a slot
+   limits a range · witnesses and examples. *)
 From Coq Require Import List NArith ZArith Bool Arith Lia.
 Import ListNotations.
 From Verif Require Import Base.Val C01.Model_C01 C04.Model_C04 C04.Spec_C04 C44.Model_C44 C45.Model_C45 C45.Spec_C45
@@ -15,3 +18,515 @@ Definition op_translate_stmt : Prop :=
   /\ assoc [103; 116] op_translate = Some [62] /\ length op_translate = 5%nat.
 Lemma op_translate_is_glsa_proof : op_translate_stmt.
 Proof. repeat split; reflexivity. Qed.
+
+(* ------------------------------------------------------------------ evaluation of the boolean nodes *)
+Definition gall (l : list gr) (p : ipkg) : bool := forallb (fun g => geval g p) l.
+
+Lemma gand_eval l neg p : geval (GAnd l neg) p = xorb (gall l p) neg.
+Proof. reflexivity. Qed.
+
+Lemma gor_eval l p : geval (GOr l) p = existsb (fun g => geval g p) l.
+Proof. reflexivity. Qed.
+
+Definition slot_ok (slot : str) (p : package) : bool := is_nil slot || str_eqb slot (p_slot p).
+
+Lemma slot_restr_eval slot p : gall (slot_restr slot) p = slot_ok slot (i_pkg p).
+Proof. unfold slot_restr, slot_ok. destruct (is_nil slot); cbn; [reflexivity|]. apply andb_true_r. Qed.
+
+Lemma gall_app a b p : gall (a ++ b) p = gall a p && gall b p.
+Proof. apply forallb_app. Qed.
+
+Lemma lookup_op_in k l v : lookup_op k l = Some v -> In (k, v) l.
+Proof.
+  induction l as [|[k' v'] l IH]; cbn [lookup_op]; [discriminate|].
+  destruct (str_eqb k k') eqn:E; intros H.
+  - injection H as <-. apply str_eqb_eq in E. subst. left; reflexivity.
+  - right. apply IH, H.
+Qed.
+
+Lemma cmpN_0 n : cmpN n 0 = 0%Z \/ cmpN n 0 = 1%Z.
+Proof.
+  unfold cmpN, sgn. destruct (N.compare n 0) eqn:E; auto.
+  exfalso. apply N.compare_lt_iff in E. exact (N.nlt_0_r _ E).
+Qed.
+
+(* ------------------------------------------------------------------ the four shapes of a range *)
+Section Shapes.
+Variables (p : ipkg) (v : str) (r : option N) (slot : str).
+Let pv := p_ver (i_pkg p).
+Let pr := p_rev (i_pkg p).
+Let base := ver_cmp pv None v None.
+Let full := ver_cmp pv pr v r.
+Let revc := cmpN (rev_val pr) (rev_val r).
+Hypothesis Hcompat : full = if Z.eqb base 0 then revc else base.
+
+Lemma memZ_0 z : memZ z [0%Z] = Z.eqb z 0.
+Proof. unfold memZ. cbn. apply orb_false_r. Qed.
+
+Lemma shape_plain opid :
+  gall ([GVer opid v r false] ++ slot_restr slot) p
+  = slot_ok slot (i_pkg p) && memZ (if op_droprev opid then base else full) (opv opid).
+Proof.
+  rewrite gall_app, slot_restr_eval. cbn [gall forallb geval]. rewrite andb_true_r, andb_comm. f_equal.
+  unfold vmatch. destruct (op_droprev opid); rewrite xorb_false_r; reflexivity.
+Qed.
+
+Lemma shape_rev opid : op_droprev opid = false ->
+  gall ([GVer 5 v None false] ++ [GVer opid v r false] ++ slot_restr slot) p
+  = slot_ok slot (i_pkg p) && (Z.eqb base 0 && memZ revc (opv opid)).
+Proof.
+  intros Hd. rewrite gall_app, gall_app, slot_restr_eval. cbn [gall forallb geval]. rewrite !andb_true_r.
+  unfold vmatch. rewrite Hd. cbn [op_droprev N.eqb Pos.eqb opv]. rewrite !xorb_false_r, memZ_0.
+  fold pv pr base full. rewrite Hcompat.
+  destruct (Z.eqb base 0); [|rewrite !andb_false_l, andb_false_r; reflexivity].
+  rewrite !andb_true_l. apply andb_comm.
+Qed.
+Lemma shape_plain' opid :
+  gall (GVer opid v r false :: slot_restr slot) p
+  = slot_ok slot (i_pkg p) && memZ (if op_droprev opid then base else full) (opv opid).
+Proof. exact (shape_plain opid). Qed.
+
+Lemma shape_rev' opid : op_droprev opid = false ->
+  gall (GVer 5 v None false :: GVer opid v r false :: slot_restr slot) p
+  = slot_ok slot (i_pkg p) && (Z.eqb base 0 && memZ revc (opv opid)).
+Proof. exact (shape_rev opid). Qed.
+End Shapes.
+
+Lemma rev_compat_eq w p : rev_compat w p = true ->
+  ver_cmp (p_ver p) (p_rev p) (w_ver w) (w_rev w)
+  = if Z.eqb (ver_cmp (p_ver p) None (w_ver w) None) 0
+    then cmpN (rev_val (p_rev p)) (rev_val (w_rev w)) else ver_cmp (p_ver p) None (w_ver w) None.
+Proof. unfold rev_compat. intros H. apply Z.eqb_eq in H. exact H. Qed.
+
+(* one range: the repaired implementation builds an AND whose members hold exactly when the package
+   satisfies the range (outside the known classes) *)
+Lemma range_ok rg w neg :
+  read_range rg = Some w -> rlt_r0 w = false ->
+  exists l, restrict_from_range true rg neg = Some (GAnd l neg) /\
+    forall p, glob_disagrees w (i_pkg p) = false -> rev_compat w (i_pkg p) = true ->
+      gall l p = range_sat w (i_pkg p).
+Proof.
+  unfold read_range, restrict_from_range. cbv zeta.
+  destruct (glsa_op (strip (g_op rg))) as [[rf c]|] eqn:Eop; [|discriminate].
+  destruct (g_text rg) as [txt|]; [|discriminate].
+  set (base0 := strip txt). set (glob := ends_star base0).
+  set (slot := opt_slot (g_slot rg)).
+  destruct glob; cbv iota;
+    (match goal with |- context [parse_base ?b] => destruct (parse_base b) as [[[v r] fv]|] end; [|discriminate]).
+  all: rename Eop into Eop0; pose proof Eop0 as Eop; clear Eop0.
+  all: unfold glsa_op in Eop; apply lookup_op_in in Eop; cbn [glsa_ops In] in Eop.
+  all: assert (Hrev : forall P : Prop, (is_nil r = true -> rev_opt r = None -> P) ->
+                                  (is_nil r = false -> rev_opt r = Some (int_of r) -> P) -> P)
+    by (intros P H1 H2; unfold rev_opt in *; destruct (is_nil r); auto).
+  all: repeat (destruct Eop as [Eop|Eop]; [injection Eop as Eo <- <-; rewrite <- Eo|]); try contradiction;
+    match goal with |- context [assoc ?a op_translate] =>
+      let x := eval vm_compute in (assoc a op_translate) in change (assoc a op_translate) with x end;
+    cbn [op_of_text starts_r N.eqb Pos.eqb negb andb orb];
+    cbn [andb negb orb str_eqb s_eq s_rlt s_rle s_rge N.eqb Pos.eqb];
+    try (intros H; discriminate H);
+    intros H Hrlt; injection H as <-;
+    unfold rlt_r0 in Hrlt; cbn [w_rev_form w_glob w_cmp w_rev negb andb] in Hrlt.
+  all: try (eexists; split; [reflexivity|]; intros p Hg Hr;
+            unfold range_sat; cbn [w_slot w_glob w_rev_form w_cmp w_ver w_rev w_fullver];
+            fold (slot_ok slot (i_pkg p)); cbn [app]).
+  (* lt le eq ge gt, not globbed *)
+  2, 3, 4, 5, 6:
+    rewrite (shape_plain' p v (rev_opt r) slot); cbn [op_droprev N.eqb Pos.eqb opv]; reflexivity.
+  (* eq globbed *)
+  - change (GGlob fv :: slot_restr slot) with ([GGlob fv] ++ slot_restr slot).
+    rewrite gall_app, slot_restr_eval. cbn [gall forallb geval]. rewrite andb_true_r, andb_comm. f_equal.
+    unfold glob_disagrees in Hg. cbn [w_glob w_fullver andb] in Hg.
+    apply negb_false_iff, eqb_prop in Hg. exact Hg.
+  (* rlt *)
+  - apply (Hrev _); intros Hn Hro; rewrite Hro in Hrlt; [discriminate|]. rewrite Hn.
+    eexists; split; [reflexivity|]; intros p Hg Hr.
+    unfold range_sat; cbn [w_slot w_glob w_rev_form w_cmp w_ver w_rev w_fullver]; fold (slot_ok slot (i_pkg p));
+      cbn [app].
+    apply rev_compat_eq in Hr. cbn [w_ver w_rev] in Hr.
+    rewrite (shape_rev' p v (rev_opt r) slot Hr 0 eq_refl). reflexivity.
+  (* rle *)
+  - apply (Hrev _); intros Hn Hro; rewrite Hn.
+    + eexists; split; [reflexivity|]; intros p Hg Hr.
+      unfold range_sat; cbn [w_slot w_glob w_rev_form w_cmp w_ver w_rev w_fullver]; fold (slot_ok slot (i_pkg p));
+      cbn [app].
+      apply rev_compat_eq in Hr. cbn [w_ver w_rev] in Hr. rewrite Hro in *.
+      rewrite (shape_plain' p v None slot). cbn [op_droprev N.eqb Pos.eqb opv]. f_equal.
+      rewrite Hr. unfold cmp_holds. cbn [rev_val].
+      destruct (Z.eqb (ver_cmp (p_ver (i_pkg p)) None v None) 0) eqn:Eb.
+      * destruct (cmpN_0 (rev_val (p_rev (i_pkg p)))) as [-> | ->]; reflexivity.
+      * rewrite memZ_0, Eb. reflexivity.
+    + eexists; split; [reflexivity|]; intros p Hg Hr.
+      unfold range_sat; cbn [w_slot w_glob w_rev_form w_cmp w_ver w_rev w_fullver]; fold (slot_ok slot (i_pkg p));
+      cbn [app].
+      apply rev_compat_eq in Hr. cbn [w_ver w_rev] in Hr.
+      rewrite (shape_rev' p v (rev_opt r) slot Hr 1 eq_refl). reflexivity.
+  (* rge *)
+  - apply (Hrev _); intros Hn Hro; rewrite Hn.
+    + eexists; split; [reflexivity|]; intros p Hg Hr.
+      unfold range_sat; cbn [w_slot w_glob w_rev_form w_cmp w_ver w_rev w_fullver]; fold (slot_ok slot (i_pkg p));
+      cbn [app].
+      rewrite Hro.
+      rewrite (shape_plain' p v None slot). cbn [op_droprev N.eqb Pos.eqb opv]. f_equal.
+      rewrite memZ_0. unfold cmp_holds. cbn [rev_val].
+      destruct (cmpN_0 (rev_val (p_rev (i_pkg p)))) as [-> | ->]; cbn; rewrite andb_true_r; reflexivity.
+    + eexists; split; [reflexivity|]; intros p Hg Hr.
+      unfold range_sat; cbn [w_slot w_glob w_rev_form w_cmp w_ver w_rev w_fullver]; fold (slot_ok slot (i_pkg p));
+      cbn [app].
+      apply rev_compat_eq in Hr. cbn [w_ver w_rev] in Hr.
+      rewrite (shape_rev' p v (rev_opt r) slot Hr 3 eq_refl). reflexivity.
+  (* rgt *)
+  - assert (Hsame : (if is_nil r then false else false) = false) by (destruct (is_nil r); reflexivity).
+    destruct (is_nil r);
+      (eexists; split; [reflexivity|]; intros p Hg Hr;
+       unfold range_sat; cbn [w_slot w_glob w_rev_form w_cmp w_ver w_rev w_fullver]; fold (slot_ok slot (i_pkg p));
+       cbn [app];
+       apply rev_compat_eq in Hr; cbn [w_ver w_rev] in Hr;
+       rewrite (shape_rev' p v (rev_opt r) slot Hr 4 eq_refl); reflexivity).
+Qed.
+
+Definition good (w : wrange) (p : ipkg) : Prop :=
+  glob_disagrees w (i_pkg p) = false /\ rev_compat w (i_pkg p) = true.
+Definition is_gand (neg : bool) (g : gr) : Prop := exists l, g = GAnd l neg.
+
+Lemma ranges_ok neg : forall rgs ws,
+  all_some (map read_range rgs) = Some ws ->
+  (forall w, In w ws -> rlt_r0 w = false) ->
+  exists gl, all_some (map (fun r => restrict_from_range true r neg) rgs) = Some gl
+    /\ Forall (is_gand neg) gl
+    /\ forall p, (forall w, In w ws -> good w p) ->
+         map (fun g => geval g p) gl = map (fun w => xorb (range_sat w (i_pkg p)) neg) ws.
+Proof.
+  induction rgs as [|rg rgs IH]; intros ws H Hr.
+  - injection H as <-. exists []. repeat split; constructor.
+  - cbn [map all_some] in H. destruct (read_range rg) as [w|] eqn:Ew; [|discriminate].
+    destruct (all_some (map read_range rgs)) as [ws'|] eqn:Ews; [|discriminate]. injection H as <-.
+    destruct (range_ok rg w neg Ew (Hr w (or_introl eq_refl))) as (l & Hl & Hev).
+    destruct (IH ws' eq_refl (fun w' Hi => Hr w' (or_intror Hi))) as (gl & Hgl & Hf & Hm).
+    exists (GAnd l neg :: gl). cbn [map all_some]. rewrite Hl, Hgl. split; [reflexivity|]. split.
+    + constructor; [exists l; reflexivity|exact Hf].
+    + intros p Hg. cbn [map]. rewrite gand_eval. f_equal.
+      * f_equal. apply Hev; apply (Hg w (or_introl eq_refl)).
+      * apply Hm. intros w' Hi. apply Hg. right. exact Hi.
+Qed.
+
+Lemma existsb_map' {A} (f : A -> bool) l : existsb f l = existsb (fun b => b) (map f l).
+Proof. induction l as [|x l IH]; [reflexivity|]. cbn. rewrite IH. reflexivity. Qed.
+Lemma forallb_map' {A} (f : A -> bool) l : forallb f l = forallb (fun b => b) (map f l).
+Proof. induction l as [|x l IH]; [reflexivity|]. cbn. rewrite IH. reflexivity. Qed.
+
+Lemma forallb_ext' {A} (f g : A -> bool) l : (forall x, f x = g x) -> forallb f l = forallb g l.
+Proof. intros H. induction l as [|x l IH]; [reflexivity|]. cbn. rewrite H, IH. reflexivity. Qed.
+Lemma existsb_ext' {A} (f g : A -> bool) l : (forall x, f x = g x) -> existsb f l = existsb g l.
+Proof. intros H. induction l as [|x l IH]; [reflexivity|]. cbn. rewrite H, IH. reflexivity. Qed.
+
+Lemma filter_gand vl il : Forall (is_gand true) il ->
+  filter (fun x => negb (in_vuln_list x vl)) il = il.
+Proof.
+  induction 1 as [|g il [l ->] _ IH]; [reflexivity|]. cbn [filter in_vuln_list negb]. rewrite IH. reflexivity.
+Qed.
+
+Lemma vuln0_eval vl p : vl <> [] ->
+  geval (match vl with [x] => x | _ => GOr vl end) p = existsb (fun g => geval g p) vl.
+Proof.
+  destruct vl as [|x [|y vl]]; intros H; [contradiction| |reflexivity].
+  cbn [existsb]. rewrite orb_false_r. reflexivity.
+Qed.
+
+Lemma existsb_false_all {A} (f : A -> bool) l : existsb f l = false -> forall x, In x l -> f x = false.
+Proof.
+  induction l as [|y l IH]; intros H x Hi; [contradiction|]. cbn in H. apply orb_false_iff in H as [H1 H2].
+  destruct Hi as [<-|Hi]; [exact H1|apply IH; assumption].
+Qed.
+
+(* the repaired implementation flags exactly the affected packages, outside the known classes *)
+Lemma affected_is_spec_partial_proof : forall e p,
+  read_entry e <> None -> known_class e p = false -> revs_compat e p = true ->
+  flagged true e p = affected_spec e p.
+Proof.
+  intros e p Hre Hk Hrc. unfold affected_spec, known_class, revs_compat in *.
+  destruct (read_entry e) as [[[a vs] us]|] eqn:Er; [|contradiction]. clear Hre.
+  cbn [known_of revs_compat_of affected_of] in *.
+  assert (Hgood : forall w, In w (vs ++ us) -> good w p /\ rlt_r0 w = false).
+  { intros w Hi. pose proof (existsb_false_all _ _ Hk w Hi) as H1. apply orb_false_iff in H1 as [H1 H2].
+    rewrite forallb_forall in Hrc. repeat split; auto. }
+  unfold read_entry in Er.
+  destruct (name_atom e) as [a'|] eqn:En; [|discriminate].
+  destruct (all_some (map read_range (n_vuln e))) as [[|v vs']|] eqn:Ev; try discriminate.
+  destruct (all_some (map read_range (n_unaff e))) as [us'|] eqn:Eu; [|discriminate].
+  injection Er as <- <- <-.
+  destruct (ranges_ok false _ _ Ev (fun w Hi => proj2 (Hgood w (in_or_app _ _ _ (or_introl Hi)))))
+    as (vl & Hvl & _ & Hvm).
+  destruct (ranges_ok true _ _ Eu (fun w Hi => proj2 (Hgood w (in_or_app _ _ _ (or_intror Hi)))))
+    as (il & Hil & Hig & Him).
+  specialize (Hvm p (fun w Hi => proj1 (Hgood w (in_or_app _ _ _ (or_introl Hi))))).
+  specialize (Him p (fun w Hi => proj1 (Hgood w (in_or_app _ _ _ (or_intror Hi))))).
+  assert (Hvne : vl <> []).
+  { intros ->. cbn in Hvm. discriminate. }
+  unfold flagged, advisory_entry, intersects.
+  destruct (n_vuln e) as [|rg0 rgs0] eqn:Env; [cbn in Ev; discriminate Ev|].
+  rewrite Hvl, Hil.
+  rewrite (filter_gand vl il Hig).
+  unfold name_atom in En.
+  destruct (Model_C03.parse_atom None false (strip (n_name e))) as [a0| |]; try discriminate.
+  destruct (Model_C03.a_transitive a0); [discriminate|]. injection En as <-.
+  rewrite gand_eval, xorb_false_r. change (gall (?x :: il) p) with (geval x p && gall il p).
+  assert (Hu : gall il p = forallb (fun w => negb (range_sat w (i_pkg p))) us').
+  { unfold gall. rewrite forallb_map', Him, <- forallb_map'. apply forallb_ext'. intros w. apply xorb_true_r. }
+  assert (Hv : existsb (fun g => geval g p) vl = existsb (fun w => range_sat w (i_pkg p)) (v :: vs')).
+  { rewrite existsb_map', Hvm, <- existsb_map'. apply existsb_ext'. intros w. apply xorb_false_r. }
+  rewrite Hu. unfold arch_of, arch_ok.
+  destruct (n_arch e) as [s|].
+  - destruct (is_nil (words (strip s)) || smem [c_star] (words (strip s))) eqn:Ea.
+    + rewrite (vuln0_eval vl p Hvne), Hv. cbn [orb]. rewrite andb_true_r, andb_assoc. reflexivity.
+    + rewrite gand_eval, xorb_false_r. cbn [gall forallb geval]. rewrite (vuln0_eval vl p Hvne), Hv, andb_true_r.
+      cbn [orb].
+      set (b1 := atom_match _ _ _). set (b2 := existsb _ (v :: vs')). set (b3 := existsb _ (words _)).
+      set (b4 := forallb _ us'). destruct b1, b2, b3, b4; reflexivity.
+  - rewrite (vuln0_eval vl p Hvne), Hv, andb_true_r, andb_assoc. reflexivity.
+Qed.
+
+(* ------------------------------------------------------------------ pinned tree vs repaired *)
+(* the raw shape of the ranges on which the pinned tree is known to differ: a slot on a glob or on
+   rle / rge, and an unaffected ([neg]) glob *)
+Definition raw_pinned (rg : range) (neg : bool) : bool :=
+  let slotted := negb (is_nil (opt_slot (g_slot rg))) in
+  let globbed := match g_text rg with Some t => ends_star (strip t) | None => false end in
+  let op := strip (g_op rg) in
+  (slotted && (globbed || str_eqb op s_rle || str_eqb op s_rge)) || (neg && globbed).
+
+Definition not_glob (g : gr) : Prop := match g with GGlob _ => False | _ => True end.
+Definition rel (neg : bool) (a b : option gr) : Prop :=
+  match a, b with
+  | Some g, Some g' => (forall p, geval g p = geval g' p) /\ (neg = true -> not_glob g) /\ is_gand neg g'
+  | None, None => True
+  | _, _ => False
+  end.
+
+Lemma range_orig_fixed rg neg : raw_pinned rg neg = false ->
+  rel neg (restrict_from_range false rg neg) (restrict_from_range true rg neg).
+Proof.
+  unfold raw_pinned, restrict_from_range. cbv zeta.
+  set (op := strip (g_op rg)). set (slot := opt_slot (g_slot rg)).
+  destruct (assoc (lstrip_r op) op_translate) as [optxt|]; [|intros _; exact I].
+  destruct (g_text rg) as [txt|]; [|intros _; exact I].
+  set (base0 := strip txt).
+  destruct (ends_star base0) eqn:Eg; cbv iota.
+  - (* glob *)
+    rewrite orb_true_l, !andb_true_r. intros H. apply orb_false_iff in H as [Hs Hn].
+    apply negb_false_iff in Hs. subst neg.
+    destruct (parse_base (removelast base0)) as [[[v r] fv]|]; [|exact I].
+    destruct (negb (str_eqb op s_eq)); [exact I|].
+    unfold slot_restr. rewrite Hs. cbn [rel]. split; [|split].
+    + intros p. rewrite gand_eval. cbn. rewrite andb_true_r, xorb_false_r. reflexivity.
+    + discriminate.
+    + eexists; reflexivity.
+  - rewrite andb_false_r, orb_false_r, orb_false_l. intros H.
+    destruct (parse_base base0) as [[[v r] fv]|]; [|exact I].
+    destruct (op_of_text optxt) as [opid|]; [|exact I].
+    destruct (starts_r op && is_nil r && str_eqb op s_rlt); [exact I|].
+    assert (Hslot : forall b, b = true -> (str_eqb op s_rle || str_eqb op s_rge) = b -> slot_restr slot = []).
+    { intros b -> Hb. rewrite Hb, andb_true_r in H. apply negb_false_iff in H. unfold slot_restr. rewrite H. reflexivity. }
+    destruct (starts_r op && is_nil r && str_eqb op s_rle) eqn:E1.
+    + apply andb_true_iff in E1 as [_ E1]. rewrite (Hslot true eq_refl (f_equal (fun b => b || _) E1)).
+      cbn [rel]. split; [|split].
+      * intros p. rewrite gand_eval. cbn [gall forallb geval]. unfold vmatch. cbn.
+        rewrite andb_true_r, xorb_false_r. reflexivity.
+      * intros _. exact I.
+      * eexists; reflexivity.
+    + destruct (starts_r op && is_nil r && str_eqb op s_rge) eqn:E2.
+      * apply andb_true_iff in E2 as [_ E2].
+        assert (E3 : (str_eqb op s_rle || str_eqb op s_rge) = true) by (rewrite E2; apply orb_true_r).
+        rewrite (Hslot true eq_refl E3). cbn [rel]. split; [|split].
+        -- intros p. rewrite gand_eval. cbn [gall forallb geval]. unfold vmatch. cbn.
+           rewrite andb_true_r, xorb_false_r. reflexivity.
+        -- intros _. exact I.
+        -- eexists; reflexivity.
+      * cbn [rel]. split; [reflexivity|]. split; [intros _; exact I|eexists; reflexivity].
+Qed.
+
+Lemma ranges_orig_fixed neg : forall rgs,
+  (forall rg, In rg rgs -> raw_pinned rg neg = false) ->
+  match all_some (map (fun r => restrict_from_range false r neg) rgs),
+        all_some (map (fun r => restrict_from_range true r neg) rgs) with
+  | Some gl, Some gl' =>
+      Forall2 (fun g g' => (forall p, geval g p = geval g' p) /\ (neg = true -> not_glob g) /\ is_gand neg g') gl gl'
+  | None, None => True
+  | _, _ => False
+  end.
+Proof.
+  induction rgs as [|rg rgs IH]; intros H; [constructor|].
+  cbn [map all_some].
+  pose proof (range_orig_fixed rg neg (H rg (or_introl eq_refl))) as Hr.
+  specialize (IH (fun rg' Hi => H rg' (or_intror Hi))).
+  destruct (restrict_from_range false rg neg) as [g|], (restrict_from_range true rg neg) as [g'|];
+    cbn [rel] in Hr; try contradiction; [|exact I].
+  destruct (all_some (map (fun r => restrict_from_range false r neg) rgs)) as [gl|],
+           (all_some (map (fun r => restrict_from_range true r neg) rgs)) as [gl'|]; try contradiction; [|exact I].
+  constructor; assumption.
+Qed.
+
+Lemma filter_not_glob vl il : Forall not_glob il -> filter (fun x => negb (in_vuln_list x vl)) il = il.
+Proof.
+  induction 1 as [|g il Hg _ IH]; [reflexivity|]. cbn [filter].
+  destruct g; cbn in Hg; try contradiction; cbn [in_vuln_list negb]; rewrite IH; reflexivity.
+Qed.
+
+Lemma forall2_gall gl gl' p :
+  Forall2 (fun g g' => (forall p, geval g p = geval g' p) /\ (true = true -> not_glob g) /\ is_gand true g') gl gl' ->
+  gall gl p = gall gl' p /\ Forall not_glob gl /\ Forall (is_gand true) gl'.
+Proof.
+  induction 1 as [|g g' gl gl' (H1 & H2 & H3) _ (IH1 & IH2 & IH3)]; [repeat split; constructor|].
+  cbn [gall forallb]. fold (gall gl p) (gall gl' p). rewrite H1, IH1. repeat split; constructor; auto.
+Qed.
+
+Lemma forall2_any gl gl' p neg :
+  Forall2 (fun g g' => (forall p, geval g p = geval g' p) /\ (neg = true -> not_glob g) /\ is_gand neg g') gl gl' ->
+  existsb (fun g => geval g p) gl = existsb (fun g => geval g p) gl' /\ (gl = [] <-> gl' = []).
+Proof.
+  induction 1 as [|g g' gl gl' (H1 & _) _ (IH & _)]; [split; [reflexivity|tauto]|].
+  cbn [existsb]. rewrite H1, IH. split; [reflexivity|]. split; discriminate.
+Qed.
+
+Lemma vuln0_eval' vl p : vl <> [] ->
+  geval (match vl with [x] => x | _ => GOr vl end) p = existsb (fun g => geval g p) vl.
+Proof. apply vuln0_eval. Qed.
+
+Lemma all_some_cons_ne {A B} (f : A -> option B) x l vl :
+  all_some (map f (x :: l)) = Some vl -> vl <> [].
+Proof.
+  cbn [map all_some]. destruct (f x); [|discriminate]. destruct (all_some (map f l)); [|discriminate].
+  intros H; injection H as <-. discriminate.
+Qed.
+
+Definition entry_not_pinned (e : entry) : Prop :=
+  (forall rg, In rg (n_vuln e) -> raw_pinned rg false = false)
+  /\ (forall rg, In rg (n_unaff e) -> raw_pinned rg true = false).
+
+Lemma orig_is_fixed_partial_proof : forall e p, entry_not_pinned e -> flagged false e p = flagged true e p.
+Proof.
+  intros e p [Hv Hu]. unfold flagged, advisory_entry, intersects.
+  destruct (n_vuln e) as [|rg0 rgs0] eqn:Env; [reflexivity|].
+  pose proof (ranges_orig_fixed false (rg0 :: rgs0) Hv) as Rv.
+  pose proof (ranges_orig_fixed true (n_unaff e) Hu) as Ru.
+  destruct (all_some (map (fun r => restrict_from_range false r false) (rg0 :: rgs0))) as [vl|] eqn:E1,
+           (all_some (map (fun r => restrict_from_range true r false) (rg0 :: rgs0))) as [vl'|] eqn:E2;
+    try contradiction; [|reflexivity].
+  destruct (all_some (map (fun r => restrict_from_range false r true) (n_unaff e))) as [il|],
+           (all_some (map (fun r => restrict_from_range true r true) (n_unaff e))) as [il'|];
+    try contradiction; [|reflexivity].
+  destruct (forall2_gall il il' p Ru) as (Hil & Hng & Hga).
+  destruct (forall2_any vl vl' p false Rv) as (Hvl & Hnil).
+  rewrite (filter_not_glob vl il Hng), (filter_gand vl' il' Hga).
+  destruct (Model_C03.parse_atom None false (strip (n_name e))) as [a| |]; try reflexivity.
+  destruct (Model_C03.a_transitive a); [reflexivity|]. f_equal.
+  rewrite !gand_eval. f_equal. change (gall (?x :: ?l) p) with (geval x p && gall l p). rewrite Hil. f_equal.
+  assert (Hne : vl <> [] /\ vl' <> []).
+  { split; [apply (all_some_cons_ne _ _ _ _ E1)|apply (all_some_cons_ne _ _ _ _ E2)]. }
+  destruct (arch_of (n_arch e)).
+  - rewrite !gand_eval. f_equal. cbn [gall forallb]. f_equal.
+    rewrite (vuln0_eval vl p (proj1 Hne)), (vuln0_eval vl' p (proj2 Hne)). exact Hvl.
+  - rewrite (vuln0_eval vl p (proj1 Hne)), (vuln0_eval vl' p (proj2 Hne)). exact Hvl.
+Qed.
+
+(* ------------------------------------------------------------------ a slot attribute limits a range of any kind *)
+Lemma gall_slot_false l slot p :
+  is_nil slot = false -> str_eqb slot (p_slot (i_pkg p)) = false -> gall (l ++ slot_restr slot) p = false.
+Proof.
+  intros H1 H2. rewrite gall_app, slot_restr_eval. unfold slot_ok. rewrite H1, H2. apply andb_false_r.
+Qed.
+
+Lemma slot_limits_range_proof : forall rg neg g p,
+  restrict_from_range true rg neg = Some g ->
+  is_nil (opt_slot (g_slot rg)) = false ->
+  str_eqb (opt_slot (g_slot rg)) (p_slot (i_pkg p)) = false ->
+  geval g p = neg.
+Proof.
+  intros rg neg g p H H1 H2. unfold restrict_from_range in H. cbv zeta in H.
+  set (slot := opt_slot (g_slot rg)) in *.
+  destruct (assoc _ op_translate); [|discriminate].
+  destruct (g_text rg) as [txt|]; [|discriminate].
+  destruct (parse_base _) as [[[v r] fv]|]; [|discriminate].
+  assert (G : forall l, geval (GAnd (l ++ slot_restr slot) neg) p = neg).
+  { intros l. rewrite gand_eval, (gall_slot_false l slot p H1 H2). destruct neg; reflexivity. }
+  destruct (ends_star _).
+  - destruct (negb _); [discriminate|]. injection H as <-. apply (G [GGlob fv]).
+  - destruct (op_of_text _); [|discriminate].
+    destruct (starts_r (strip (g_op rg)));
+    repeat match type of H with (if ?c then _ else _) = _ => destruct c end; try discriminate;
+      injection H as <-; first [apply (G [_; _]) | apply (G [_])].
+Qed.
+
+(* ------------------------------------------------------------------ witnesses *)
+Arguments P (c n v)%bs_scope r (fv sl ss repo)%bs_scope kw.
+Arguments R (op)%bs_scope slot text.
+Arguments E (name)%bs_scope arch vuln unaff.
+Definition pk (v : bstr) (r : option N) (fv sl : bstr) (kw : list bstr) : ipkg := P "a" "b" v r fv sl sl "vdb" kw.
+Arguments pk (v)%bs_scope r (fv sl)%bs_scope kw.
+Definition b05 := pk "0.5" None "0.5" "0" ["x86"%bs].
+Definition b10 := pk "1.0" None "1.0" "0" ["x86"%bs].
+Definition b10r1_s1 := pk "1.0" (Some 1) "1.0-r1" "1" ["x86"%bs].
+Definition b15 := pk "1.5" None "1.5" "0" ["arm"%bs].
+Definition b10_big := pk "10" None "10" "0" ["x86"%bs].
+
+(* K1: vulnerable < 2.0, unaffected = 1.0* *)
+Definition e_k1 := E "a/b" None [R "lt" None (Some "2.0"%bs)] [R "eq" None (Some "1.0*"%bs)].
+(* K2: vulnerable rge 1.0 in slot 1 only *)
+Definition e_k2 := E "a/b" None [R "rge" (Some "1"%bs) (Some "1.0"%bs)] [].
+(* K3: vulnerable = 1* *)
+Definition e_k3 := E "a/b" None [R "eq" None (Some "1*"%bs)] [].
+(* K4: vulnerable rlt 1.0 (empty) or < 0.9 *)
+Definition e_k4 := E "a/b" None [R "rlt" None (Some "1.0"%bs); R "lt" None (Some "0.9"%bs)] [].
+
+(* the full statement (no class excluded), for the pinned tree and for the repaired one *)
+Definition C45_full_statement (fix_ : bool) : Prop :=
+  forall e p, read_entry e <> None -> revs_compat e p = true -> flagged fix_ e p = affected_spec e p.
+
+Ltac refute e p :=
+  let H := fresh in
+  intros H; specialize (H e p);
+  assert (Hre : read_entry e <> None) by (vm_compute; discriminate);
+  assert (Hrc : revs_compat e p = true) by (vm_compute; reflexivity);
+  specialize (H Hre Hrc); vm_compute in H; discriminate H.
+
+(* pinned tree, K1: the package that matches the unaffected glob is the one that is flagged *)
+Lemma affected_orig_refuted_unaffected_glob_proof :
+  ~ C45_full_statement false
+  /\ flagged false e_k1 b10 = true /\ affected_spec e_k1 b10 = false
+  /\ flagged false e_k1 b05 = false /\ affected_spec e_k1 b05 = true
+  /\ known_class e_k1 b10 = false /\ known_class_orig e_k1 b10 = true.
+Proof. split; [refute e_k1 b10|]. repeat split; vm_compute; reflexivity. Qed.
+
+(* pinned tree, K2: the slot of an rge range without revision is dropped *)
+Lemma affected_orig_refuted_slot_proof :
+  flagged false e_k2 b10 = true /\ affected_spec e_k2 b10 = false
+  /\ known_class e_k2 b10 = false /\ known_class_orig e_k2 b10 = true
+  /\ flagged true e_k2 b10 = false /\ flagged true e_k2 b10r1_s1 = true.
+Proof. repeat split; vm_compute; reflexivity. Qed.
+
+(* repaired and pinned alike, K3 and K4 *)
+Lemma affected_refuted_glob_prefix_proof :
+  ~ C45_full_statement true
+  /\ flagged true e_k3 b10_big = true /\ affected_spec e_k3 b10_big = false /\ known_class e_k3 b10_big = true.
+Proof. split; [refute e_k3 b10_big|]. repeat split; vm_compute; reflexivity. Qed.
+
+Lemma affected_refuted_rlt_r0_proof :
+  flagged true e_k4 b05 = false /\ affected_spec e_k4 b05 = true /\ known_class e_k4 b05 = true.
+Proof. repeat split; vm_compute; reflexivity. Qed.
+
+(* ------------------------------------------------------------------ non-vacuity *)
+Definition e_ok := E " a/b " (Some "x86 amd64"%bs)
+                     [R "rgt" (Some "1"%bs) (Some "1.0"%bs); R "lt" None (Some "1.0"%bs)]
+                     [R "ge" None (Some "1.5"%bs); R "eq" (Some "0"%bs) (Some "0.5"%bs)].
+Example ex_entry_ok :
+  read_entry e_ok <> None /\ entry_not_pinned e_ok
+  /\ known_class e_ok b10r1_s1 = false /\ revs_compat e_ok b10r1_s1 = true
+  /\ flagged true e_ok b10r1_s1 = true /\ affected_spec e_ok b10r1_s1 = true
+  /\ flagged true e_ok b05 = false       (* the unaffected = 0.5 in slot 0 *)
+  /\ flagged true e_ok b15 = false       (* >= 1.5 unaffected, and arm *)
+  /\ flagged true e_ok b10 = false.      (* 1.0 is not < 1.0, and rgt 1.0 only in slot 1 *)
+Proof.
+  split; [vm_compute; discriminate|]. split.
+  - split; intros rg Hi; unfold e_ok, E in Hi; cbn [n_vuln n_unaff In] in Hi;
+      repeat (destruct Hi as [<-|Hi]; [vm_compute; reflexivity|]); contradiction.
+  - repeat split; vm_compute; reflexivity.
+Qed.
